@@ -105,6 +105,9 @@ META["rule"] += (
 META["rule"] += (
     " " + 'Added after the fifth round: half of the local-rate cases have a quarter of their samples missing; 30 % of the history cases are sequential-mode objects whose threshold attribute is assigned after the histograms were queried; switches as bool / np.bool_ / 0-1; plateaus of 520 (thorough 1030) samples.')
 
+META["rule"] += (
+    " " + 'Added after the sixth round: missing_values switched off on 30 % of the live objects with missing samples; a shallow copy taken before the setters of a history is judged against the old matrix afterwards.')
+
 SCALARS = [
     ("max_diaglength", "diag", None), ("determinism", "diag", "frac"),
     ("average_diaglength", "diag", "avg"), ("diag_entropy", "diag", "ent"),
@@ -434,6 +437,15 @@ def api_pair(ctx, RP, x, R, miss, cid, tags, case, r, all_mins=True, **kw):
             ctx.count("api_realised")
         out[sparse] = api_judge(ctx, obj, R, miss, cid, t, case, r, all_mins)
         out[(sparse, "obj")] = obj
+        if missing and not sparse and r.random() < 0.3:
+            # the public switch turned off on the live object: the matrix
+            # (rows and columns of missing samples are empty) is then
+            # counted like any other matrix
+            obj.missing_values = False
+            ctx.count("api_missing_switched_off")
+            api_judge(ctx, obj, R, None, cid, t + ["switched-off"], case, r,
+                      all_mins)
+            obj.missing_values = True
     if (False, "obj") in out and (True, "obj") in out:
         # direct mode-vs-mode comparison, independent of the reference
         for key in ("diag", "vert"):
@@ -752,6 +764,12 @@ def history_case(ctx, RP, r, cid, nmax):
         warnings.simplefilter("ignore")
         nsteps = int(r.integers(1, 4))
         last_local = r.random() < 0.4
+        # a shallow copy of the object taken before the setters run (and the
+        # matrix it reported then): the setters act on the object, the copy
+        # keeps describing the matrix it was copied with
+        import copy as _copy
+        twin = _copy.copy(obj) if r.random() < 0.4 else None
+        R_before = np.array(obj.recurrence_matrix(), copy=True)
         for si in range(nsteps):
             # warm every cache with the matrix about to be replaced
             for q in ("diagline_dist", "vertline_dist", "white_vertline_dist",
@@ -774,6 +792,18 @@ def history_case(ctx, RP, r, cid, nmax):
         ctx.count("api_history_asymmetric")
     api_judge(ctx, obj, R, None, cid, ["history"],
               {"x": x, "ctor": ctor, "steps": steps}, r, all_mins=False)
+    if twin is not None:
+        ctx.count("api_history_shallow_copies")
+        Rt = np.asarray(twin.recurrence_matrix())
+        if Rt.shape != R_before.shape or not np.array_equal(Rt, R_before):
+            ctx.violation(sig("RecurrencePlot.recurrence_matrix",
+                              "copy-changed-by-setters-of-the-original",
+                              ["history"]),
+                          {"x": x, "ctor": ctor, "steps": steps}, cid)
+        else:
+            api_judge(ctx, twin, R_before, None, cid, ["history", "copy"],
+                      {"x": x, "ctor": ctor, "steps": steps}, r,
+                      all_mins=False)
 
 
 def boundary_case(ctx, RP, K, r, cid, nmax):
